@@ -47,6 +47,8 @@ func c14Docs() []bson.D {
 		bD("_id", i(5), "a", bD("b", bD("c", bD("deep", true))), "t", bson.A{bson.A{i(1), i(2)}, bson.A{i(3)}}, "r", bson.A{i(1), i(2), i(3)}),
 		bD("_id", bD("k", i(1), "tags", bson.A{i(1), i(2), i(3)}), "a", bD("e", bson.A{i(1), i(2)}), "r", bson.A{bD("x", i(2)), bD("x", i(2), "y", i(9))}),
 		bD("_id", i(7), "zz", i(1), "a", bD("zz", i(2), "b", bD("d", i(1)))),
+		// an array that mixes scalars and documents: $elemMatch conditions on fields only look at the documents
+		bD("_id", i(9), "r", bson.A{i(5), bD("x", nil), bD("y", i(1)), bD("x", i(2))}, "t", bson.A{i(7), bD("q", i(1))}),
 		// the _id is not the first field
 		bD("a", bD("b", i(3), "e", bson.A{i(4), i(5)}), "_id", i(8), "t", bson.A{i(1), i(2)}),
 	}
@@ -75,6 +77,7 @@ func c14Flags(level int) []interface{} {
 		}
 	}
 	fs = append(fs, bD("$elemMatch", bD("x", i(2))), bD("$elemMatch", bD("$gt", i(5))), bD("$elemMatch", bD()), bD("$elemMatch", bD("x", i(2), "y", bD("$gte", i(3)))))
+	fs = append(fs, bD("$elemMatch", bD("x", nil)), bD("$elemMatch", bD("x", bD("$exists", false))), bD("$elemMatch", bD("y", bD("$ne", i(1)))))
 	return fs
 }
 
@@ -237,6 +240,20 @@ func init() {
 					atomic.AddInt64(&emptyResultChecks, 1)
 					if ferr == nil || oerr == nil || oerr == mongo.ErrNoDocuments {
 						r.Violation("accepted-on-empty-result:"+c14Shape(ents), fmt.Sprintf("projection %s must be rejected (%v) but Find / FindOne with a filter that matches nothing return (%v, %v)", J(proj), werr, ferr, oerr), map[string]interface{}{"projection": J(proj)})
+					}
+					// ... and the find-one-and-modify calls, on this collection and on one that was never created
+					for _, cl := range []lungo.ICollection{coll, w.C("d", "never-created")} {
+						nothing := bD("_id", "matches nothing")
+						errs := []error{
+							cl.FindOneAndDelete(w.Ctx, nothing, options.FindOneAndDelete().SetProjection(proj)).Err(),
+							cl.FindOneAndUpdate(w.Ctx, nothing, bD("$set", bD("q", int32(1))), options.FindOneAndUpdate().SetProjection(proj)).Err(),
+							cl.FindOneAndReplace(w.Ctx, nothing, bD("q", int32(1)), options.FindOneAndReplace().SetProjection(proj)).Err(),
+						}
+						for k, e := range errs {
+							if e == nil || e == mongo.ErrNoDocuments {
+								r.Violation("accepted-on-empty-result:find-and-modify:"+c14Shape(ents), fmt.Sprintf("projection %s must be rejected (%v) but %s on %s with a filter that matches nothing returns %v", J(proj), werr, []string{"FindOneAndDelete", "FindOneAndUpdate", "FindOneAndReplace"}[k], cl.Name(), e), map[string]interface{}{"projection": J(proj)})
+							}
+						}
 					}
 				}
 				for _, e := range ents {
